@@ -1,5 +1,6 @@
 import Amgcl.Driver.Util
 import Amgcl.Driver.Primitives2
+import Amgcl.Driver.Primitives3
 import Amgcl.Model.Primitives
 import Amgcl.Model.EigenVT
 /-!
@@ -11,6 +12,10 @@ C07 / C17, Eigen at complex and block values (carrier `CRat` of `Driver/Primitiv
   evt_ops cx b X Y v w c                                value_type/eigen.hpp at Eigen::Matrix<T,b,b> (cx = 1: T complex):
       -> adjoint X | X*Y | X*v | <v,w> | <X,Y> | norm X or `irr` | zero | is_zero X, is_zero 0 | identity | constant c
          | inverse X or `noninv` | X < Y (cx = 0 only; `-` otherwise)
+  mxp_spmv b pm pv ct a A x beta y | mxp_residual b pm pv ct f A x | mxp_vmul b pm pv ct a X y beta z
+      the mixed scalar/block overloads with a block matrix of precision pm and FLAT scalar vectors of precision pv in
+      container ct: the SAME model functions as `mx_spmv` / `mx_residual` / `mx_vmul` (`Driver/Primitives3.lean`,
+      `Model/BlockValue.lean`) — the result does not depend on the precisions or the container; b = 2..4
 -/
 namespace Amgcl.Driver.Primitives4
 open Amgcl Amgcl.Driver Amgcl.Driver.Primitives2
@@ -63,6 +68,21 @@ def handle (op : String) (args : List String) : Option String :=
         else if cx == 0 && !(real X && real Y && real v && real w && c.im == 0) then badInput
         else if !((X ++ Y ++ v ++ w ++ #[c]).toList.all isInt) then badInput
         else evtOps cx b X Y v w c
+  | "mxp_spmv" | "mxp_residual" | "mxp_vmul" =>
+    match args with
+    | tb :: tpm :: tpv :: tct :: rest =>
+      match tb.toNat?, tpm.toNat?, tpv.toNat?, tct.toNat? with
+      | some b, some pm, some pv, some ct =>
+        if !(2 ≤ b && b ≤ 4 && pm ≤ 1 && pv ≤ 1 && ct ≤ 1) then some badInput
+        else if op == "mxp_spmv" then
+          -- non-empty block matrix dimensions, as in the harness
+          some (match rest with
+            | _ :: n :: m :: _ => if n == "0" || m == "0" then badInput else Primitives3.mxSpmv b ("0" :: "0" :: "0" :: rest)
+            | _ => badInput)
+        else if op == "mxp_residual" then some (Primitives3.mxResidual b ("0" :: "0" :: "0" :: "0" :: rest))
+        else some (Primitives3.mxVmul b ("0" :: "0" :: rest))
+      | _, _, _, _ => some badInput
+    | _ => some badInput
   | _ => none
 
 end Amgcl.Driver.Primitives4
